@@ -23,10 +23,17 @@ for pid in pids:
     for o in outs:
         for r in o["results"]:
             st = r["status"]
+            if (r["time"] or 0) > 6:
+                print("   slow: %.1fs %s %s" % (r["time"], r["status"], r["name"]))
             if st == "unknown":
                 s3, _ = solve.relax_check(r["_oblig"].hyps, r["_oblig"].goal)
                 if s3 == "discharged":
                     st = "discharged"
+                else:
+                    smt = "(set-option :smt.random_seed 7)\n" + solve.to_smt2(r["_oblig"].hyps, r["_oblig"].goal)
+                    st4 = solve._z3_check(smt, 3 * solve.Z3_TIMEOUT_MS)[0]
+                    if st4 == "discharged":
+                        st = "discharged"
             d[r["name"]] = st
     base[pid] = d
     print(pid, len(d), "obligations;", sum(1 for v in d.values() if v == "discharged"), "discharged")
